@@ -225,5 +225,27 @@ func VerifC10RoundTrip() {
 	if err == nil && len(b.Responses[vTbl]) == 1 {
 		check(b.Responses[vTbl][0], "C10-batchget")
 	}
+	// reads cut by a Limit return whole items too (the last item of a page is also what the LastEvaluatedKey is cut from)
+	ql, err := c.Query(vCtx, &dynamodb.QueryInput{TableName: aws.String(vTbl), KeyConditionExpression: aws.String("p = :p"), ExpressionAttributeValues: vItem{":p": vS("k")},
+		Limit: aws.Int32(1), ScanIndexForward: aws.Bool(nd.Choice("limited-query-forward", 2) == 1)})
+	nd.Assert(err == nil && len(ql.Items) == 1, "C10-limited-query-noerr")
+	if err == nil && len(ql.Items) == 1 {
+		check(ql.Items[0], "C10-limited-query")
+	}
+	sl, err := c.Scan(vCtx, &dynamodb.ScanInput{TableName: aws.String(vTbl), Limit: aws.Int32(1)})
+	nd.Assert(err == nil && len(sl.Items) == 1, "C10-limited-scan-noerr")
+	if err == nil && len(sl.Items) == 1 {
+		check(sl.Items[0], "C10-limited-scan")
+	}
+	// a BatchGetItem over two tables returns each table's items under that table
+	nd.Assert(AddTable(vCtx, c, "tb2", "p", "") == nil, "setup-addtable2")
+	_, perr := c.PutItem(vCtx, &dynamodb.PutItemInput{TableName: aws.String("tb2"), Item: vItem{"p": vS("k2"), "other": vS("o")}})
+	nd.Assert(perr == nil, "setup-put2")
+	b2, err := c.BatchGetItem(vCtx, &dynamodb.BatchGetItemInput{RequestItems: map[string]types.KeysAndAttributes{vTbl: {Keys: []vItem{key}}, "tb2": {Keys: []vItem{{"p": vS("k2")}}}}})
+	nd.Assert(err == nil && len(b2.Responses[vTbl]) == 1 && len(b2.Responses["tb2"]) == 1, "C10-batchget-two-tables-noerr")
+	if err == nil && len(b2.Responses[vTbl]) == 1 && len(b2.Responses["tb2"]) == 1 {
+		check(b2.Responses[vTbl][0], "C10-batchget-two-tables")
+		nd.Assert(vSameItem(b2.Responses["tb2"][0], vItem{"p": vS("k2"), "other": vS("o")}), "C10-batchget-two-tables-other-table")
+	}
 	nd.Reach("end")
 }
